@@ -48,6 +48,10 @@ ASSUMPTIONS = [
     "amplitude scaling uses powers of two so that bin comparisons cannot flip",
 ]
 MIN_NONTRIVIAL = {"quick": 5000, "thorough": 100000}
+
+# extra workload of the thorough tier: the repository's own tests with the cheap monitors
+# of vf/ambient.py attached (never the deciding one; DESIGN 2.8)
+AMBIENT = {"tests": ['test_cyclecount.py', 'test_fdepsd.py'], "monitors": ['findap'], "quick": False}
 TIMEOUT = {"quick": 1200, "thorough": 7200}
 
 TOLS = [0.0, 1e-12, 1e-6, 1e-2]
